@@ -269,18 +269,23 @@ def run(chk):
 
 
 def replay(data):
+    """re-runs the case of a replay file; an optional "env" entry (UM_ROUTE_* knobs of harness/route) is passed to the harness - the two
+    witnesses for phase pairs outside the consistent list (work/C02_witness_*.json) need a short max_blocking_time"""
+    import os
     chk = vlib.Check('C02', 'quick', 0)
     c = data.get('case') or (data.get('first') or {}).get('case')
     if not c:
         print(data); return 0
     chk.build_impl('route'); chk.build_models('route')
-    parsed, mout = run_pipeline(chk, [c], 1)
-    p, raw = parsed[0]
+    rc, o = vlib.sh([vlib.UMH('route')], inp=c + '\n', timeout=600, env=dict(vlib.ENV, **data.get('env', {})))
+    raw = o.strip().split('\n')[-1] if o.strip() else ''
+    p = split_impl(raw)
+    m = run_model_on(chk, model_lines([c], [(p, raw)]), 1)[0]
     print('case :', c)
     print('impl :', raw[:4000])
-    print('model:', mout[0][:4000])
+    print('model:', m[:4000])
     if not p:
         return 1
-    agree = [p['V'], p['PH'], p['OBS']] == mout[0].split(' ## ')[:3]
-    print('agree:', agree, '  monitor:', p['MON'])
+    agree = [p['V'], p['PH'], p['OBS']] == m.split(' ## ')[:3]
+    print('agree:', agree, '  monitor:', p['MON'][:600])
     return 0 if p['MON'].startswith('ok ') else 1
